@@ -75,7 +75,21 @@ fn filter_by_id(report: &Report, allow_list: &[String]) -> bool {
     !allow_list.contains(&report.id())
 }
 
+/// The stack size of the thread running the analysis. Since the AST and the
+/// dominator tree are traversed recursively, deeply nested input would otherwise
+/// overflow the (much smaller) stack of the main thread.
+const STACK_SIZE: usize = 1024 * 1024 * 1024;
+
 fn main() -> ExitCode {
+    match std::thread::Builder::new().stack_size(STACK_SIZE).spawn(run).map(|handle| handle.join())
+    {
+        Ok(Ok(exit_code)) => exit_code,
+        // Either the thread could not be spawned, or it panicked.
+        _ => ExitCode::from(101),
+    }
+}
+
+fn run() -> ExitCode {
     // Initialize logger and options.
     pretty_env_logger::init();
     let options = Cli::parse();
